@@ -84,6 +84,27 @@ Theorem C13_fan_cell_leaves_triangles `{Sig} : forall E n ks f nds c w cnt w' cn
 Proof. exact fan_cell_triangulates. Qed.
 Print Assumptions C13_fan_cell_leaves_triangles.
 
+(** Ear clipping.  Whichever ears the geometric test selects, a run of the clipping loop that terminates normally has
+    changed the images exactly as the pure function [earclip_pure] does (on every store); and one clipped ear (d1, d2)
+    between b0 and b1 is: the triangle d1 -> d2 -> nd1 -> d1 closed, nd2 taking its place between b0 and b1, nd1 | nd2
+    glued, every other image untouched. *)
+From HC Require Import Map2.EarTopo.
+Theorem C13_earclip_refines_pure `{Sig} : forall E n ks ccw pairs ds vs c w cnt k w' cnt',
+  run E (earclip_loop n ks ccw ds vs pairs) c w cnt = (Done k, w', cnt') ->
+  forall i d, beta w' i d = earclip_pure (beta w) ccw ds vs pairs i d.
+Proof. intros E n ks ccw pairs ds vs c w cnt k w' cnt'. exact (earclip_loop_refines E n ks ccw pairs ds vs c w cnt k w' cnt'). Qed.
+Print Assumptions C13_earclip_refines_pure.
+
+Theorem C13_one_ear `{Sig} : forall (f : img) d1 d2 nd1 nd2,
+  let b0 := f 0 d1 in let b1 := f 1 d2 in
+  f 1 b0 = d1 -> f 1 d1 = d2 ->
+  NoDup [b0; d1; d2; b1; nd1; nd2] ->
+  let f' := ear_iter f d1 d2 nd1 nd2 in
+  (f' 1 d1, f' 1 d2, f' 1 nd1) = (d2, nd1, d1) /\ (f' 1 b0, f' 1 nd2) = (nd2, b1) /\ (f' 2 nd1, f' 2 nd2) = (nd2, nd1) /\
+  (forall i d, ~ In d [b0; d1; d2; b1; nd1; nd2] -> f' i d = f i d).
+Proof. intros f d1 d2 nd1 nd2. exact (ear_iter_spec f d1 d2 nd1 nd2). Qed.
+Print Assumptions C13_one_ear.
+
 (** Tie to the source: [fan_convex_cell], with the loop [fan_loop] and the body [fan_from] the theorems above are about,
     is, verbatim, the program (and the recursive function for its loop over the pairs of spare darts) that
     tools/tr_kern.py regenerates from triangulation/fan.rs::process_convex_cell on every run. *)
